@@ -12,20 +12,22 @@ import json
 import random
 
 import common as C
+import c19_cons as K
 
 PID = "C19"
-DRIVER = [("C19", "TfPwaV.Model.Config", "Config.handle")]
-LEAN_TARGETS = ["TfPwaV.Props.C19", "TfPwaV.Props.C19b", "TfPwaV.Props.C19c"]
-PROP_MODULES = ["TfPwaV.Props.C19", "TfPwaV.Props.C19b", "TfPwaV.Props.C19c"]
-ALL_MODULES = ["TfPwaV.Model.Config", "TfPwaV.Model.LS", "TfPwaV.Proofs.Config", "TfPwaV.Props.C19", "TfPwaV.Props.C19b", "TfPwaV.Props.C19c", "TfPwaV.Props.C13"]
+DRIVER = [("C19", "TfPwaV.Model.Config", "Config.handle"), ("C19k", "TfPwaV.Model.ConfigC", "ConfigC.handle")]
+LEAN_TARGETS = ["TfPwaV.Props.C19", "TfPwaV.Props.C19b", "TfPwaV.Props.C19c", "TfPwaV.Props.C19d", "TfPwaV.Props.C19e", "TfPwaV.Props.C19f", "TfPwaV.Model.ConfigC"]
+PROP_MODULES = ["TfPwaV.Props.C19", "TfPwaV.Props.C19b", "TfPwaV.Props.C19c", "TfPwaV.Props.C19d", "TfPwaV.Props.C19e", "TfPwaV.Props.C19f"]
+ALL_MODULES = ["TfPwaV.Model.Config", "TfPwaV.Model.ConfigC", "TfPwaV.Model.LS", "TfPwaV.Proofs.Config", "TfPwaV.Proofs.ConfigRT", "TfPwaV.Props.C19", "TfPwaV.Props.C19b", "TfPwaV.Props.C19c", "TfPwaV.Props.C19d", "TfPwaV.Props.C19e", "TfPwaV.Props.C19f", "TfPwaV.Props.C13"]
 ASSUMPTIONS = [
     "grammar of cards: 3- and 4-body, two-body decays (HelicityDecay) only, $top/$finals given (name/list form or dict form), candidate lists of plain names (1-3, occasionally empty or shared between slots), spins from {0,1/2,1,3/2,2} written as int / float / 'k/2', parities +-1 / missing / null, C with c_break, per-decay options p_break c_break l_list ls_list (+ has_barrier_factor as an irrelevant key), aliases m0 g0 Par bw, $include through share_dict, float / m_min m_max bounds, permuted keys; every particle name occurs at most once in a chain (name:id counters all 0)",
     "excluded by design and stated: m_min/m_max WITHOUT mass (set_min_max draws random.random()), fix_chain_val left to np.random.uniform (only names / fixed sets are compared, never initial values), mass_cut, nested dict items inside candidate lists, cyclic cards (Python RecursionError; the model returns raise:RecursionError), 3-body decays",
     "the translation of a Python card into the token line of the Lean driver (encode_card) is trusted to be faithful",
-    "export -> load (as_config) and the parameter-name / trainable / bound observables are validated on the implementation, not proved; the Lean model reproduces chains, (l,s) lists and parameter names (get_params key list)",
+    "constraints: the Lean model ConfigC reproduces, for cards of the grammar extended by float (str / list forms), m_/mass_/g_/width_ min max, mass_/m0_ range, *_free, mass_sigma + mass_constr, gauss_constr {m,g}, constrains.decay (fix_chain_idx / fix_chain_val), fix_var, free_var, var_range, var_equal, gauss_constr, particle.equal.mass (one pair): the ORDERED vm.trainable_vars, bound_dic, vm.same_list, gauss_constr_dic and every value the loader assigns (masses, widths, reference couplings, fix_var values); compared exactly (values to 1e-12) on every constrained card. Excluded and stated: tie groups that overlap an earlier group (set_same merge branch: model answers unsupported), coef_head, decay_d, pre_trans / from_trans, params: sub-dict, gauss_constr {m: ..} on a particle WITHOUT mass (central value = a random initial mass), negative fix_chain_idx; get_fcn().gauss_constr is compared with gauss_constr_dic on 3 (quick) / 20 (thorough) cards with a 16-event phase-space sample",
+    "history: the process-wide memo of per-decay factors is a parameter of the model (CacheMode byName = tree before 0e31b14, byObject = tree since); which mode the tree has is OBSERVED (history_demo) and the model in that mode is compared with two real loads in one process on 4 J^P-scan pairs; other shared state (get_chains_map lru_cache, particle.creators growth) is probed by search only",
     "Python dict = association list in insertion order; str ordering = code-point order (Lean String <)",
     "the grammar uses at most ONE $include file; with two includes and mixed alias/canonical spellings the loader USED to let the first include override the card (repaired by /repo commit 4535060; theorem alias_include_two_refuted is about the model of the unrepaired merge; two_include_demo runs on the implementation on every check and is reported as a failure if the defect returns)",
-    "export -> import: the model function Card.roundTrip (as_config restricted to J, P, C, mass, width, p_break, c_break) is compared with the real as_config -> ConfigLoader on every card; proved: the export keeps what the loader reads of every particle and decay (export_import_partial_qn/_ls) and one kernel-evaluated instance; the general round-trip theorem is not proved",
+    "export -> import: the model function Card.roundTrip (as_config restricted to J, P, C, mass, width, p_break, c_break; spins / curve_style / model kwargs of the real export do not influence chains or couplings) is compared with the real as_config -> ConfigLoader on every card; proved for EVERY card that loads without a user ls_list on a produced chain (Props/C19d export_import): the export loads, same chain SET, same J/P/C/width presence, exported p_break/c_break, same (l,s) lists where no l_list; the chain ORDER is not preserved (export_import_order_refuted, reproduced on the implementation by order_demo on every run)",
 ]
 
 FINALS = ["B", "C", "D", "E"]
@@ -777,6 +779,7 @@ def correspond(ctx, res):
         "outcome_kinds": kinds,
         "disagreements": n_dis,
     })
+    correspond_cons(ctx, res)
 
 
 def search(ctx, res):
@@ -946,6 +949,7 @@ def search(ctx, res):
             res.notes.append("NOT REPORTED AS FAILURE (outside the one-include grammar, flag REPORT_TWO_INCLUDE_ALIAS): " + demo2["what"])
     stat["history_failures"] = hist_fail
     res.coverage.update({"search": stat})
+    search_cons(ctx, res)
     if stat["creators_grew"]:
         res.notes.append("every uncached get_chains_map()/topology_map call appends temporary BaseDecay objects to particle.creators of the loaded groups (%d group probes over %d cards: lists grow, particle.decay, decay[0] and creators[0] unchanged); chains, parameter names, trainable/fixed/bound sets of the same and of later loads are unchanged -> no observable effect on the property, candidate patch C14-fix_topology_map_no_register stays hygiene only" % (stat["creators_grew"], min(len(idx), n_hist)))
 
@@ -1005,6 +1009,235 @@ def history_demo():
     return None
 
 
+# --------------------------------------------------------------------------------------------------------------
+# constraints (fixed / free / bound / tie / gaussian-constraint sets) and the history model
+# --------------------------------------------------------------------------------------------------------------
+
+def cons_cases(ctx):
+    """constrained variants of the loadable generated cards: list of (case index, cfg, share)"""
+    if getattr(ctx, "_c19_cons", None) is not None:
+        return ctx._c19_cons
+    import sys
+    me = sys.modules[__name__]
+    cs = cases(ctx)
+    n = 50 if ctx.quick else 500
+    rnd = random.Random(65537 * ctx.seed + 23)
+    out = []
+    for i, (cfg, share) in enumerate(cs):
+        if len(out) >= n:
+            break
+        o = obs_of(ctx, i, cfg, share)[0]
+        if "raise" in o or "params" not in o:
+            continue
+        out.append((i, K.add_constraints(me, rnd, cfg, share, o), share))
+    ctx._c19_cons = out
+    ctx._c19_cons_obs = {}
+    return out
+
+
+def cons_obs(ctx, j, cfg, share):
+    if j not in ctx._c19_cons_obs:
+        ctx._c19_cons_obs[j] = K.observe(cfg, share)
+    return ctx._c19_cons_obs[j]
+
+
+def order_card():
+    """Props/C19d `orderCard`: the decays of x are re-registered in first-appearance order by export -> load"""
+    pb = {"p_break": True}
+    return {"data": {"dat_order": ["B", "C", "D", "E", "F"]},
+            "decay": {"A": [["x", "Q1", pb], ["x", "V", pb]], "x": [["B", "C", pb], ["Z", "C", pb]], "Z": ["B", "E", pb],
+                      "Q1": ["D", "F", pb], "V": [["Q2", "E", pb], ["D", "F", pb]], "Q2": ["D", "F", pb]},
+            "particle": {"$top": "A", "$finals": ["B", "C", "D", "E", "F"]}}
+
+
+def order_demo(ctx, res):
+    """model (ops chains / rt) against the implementation on the card on which export -> load permutes the chains"""
+    cfg = order_card()
+    o = observe(copy.deepcopy(cfg), {}, amp=False)
+    if "raise" in o:
+        res.broke("order_demo: the 5-body order card does not load", o)
+        return None
+    with contextlib.redirect_stdout(io.StringIO()):
+        from tf_pwa.config_loader import ConfigLoader
+        ex = ConfigLoader(copy.deepcopy(cfg)).get_decay().as_config()
+    ex["data"] = {"dat_order": ["B", "C", "D", "E", "F"]}
+    oe = observe(ex, {}, amp=False)
+    enc = encode_card(cfg, {})
+    m_ch, m_rt = ctx.model.query(["C19 chains " + enc, "C19 rt " + enc])
+    impl_rt = ("raise:" + oe["raise"]) if "raise" in oe else "|".join(oe["chains"]) + " # " + "|".join(";".join(x) for x in oe["ls"])
+    if "|".join(o["chains"]) != m_ch or impl_rt != m_rt:
+        res.broke("correspondence Config.roundTrip on the order card (Props/C19d orderCard)", {"impl": o["chains"], "impl_rt": impl_rt[:400], "model": m_ch, "model_rt": m_rt[:400]})
+    if "raise" not in oe and sorted(oe["chains"]) != sorted(o["chains"]):
+        res.fail("export:chains", "export->load of the order card gives chains %s, original %s" % (oe["chains"], o["chains"]), {"config": cfg, "share": {}, "check": "export:chains"})
+    return "raise" not in oe and oe["chains"] != o["chains"]
+
+
+def hist_pairs():
+    return [(("1/2", 1), ("3/2", 1)), (("3/2", 1), ("1/2", 1)), (("1/2", 1), ("1/2", 1)), (("3/2", -1), ("1/2", 1))]
+
+
+def hist_impl(first, second):
+    """load `first`, touch its CG factors, load `second`: per decay of the second model the (2ja,2jb,2jc : ls) signature
+    its CG factor was computed for ('stale' shapes are recognised through expected_cg)"""
+    import numpy as np
+    o1 = observe(lambda_card(first), {}, keep=True)
+    for ch in o1["_loader"].get_decay():
+        for d in ch:
+            d.get_cg_matrix()
+    o2 = observe(lambda_card(second), {}, keep=True)
+    out = []
+    for ch in o2["_loader"].get_decay():
+        for d in ch:
+            got, exp = np.asarray(d.get_cg_matrix(), dtype=float), expected_cg(d)
+            out.append("own" if got.shape == exp.shape and np.allclose(got, exp, atol=1e-9) else "stale")
+    return out
+
+
+def correspond_cons(ctx, res):
+    import sys
+    me = sys.modules[__name__]
+    cc = cons_cases(ctx)
+    lines = [K.encode(me, cfg, share) for _, cfg, share in cc]
+    # history model: which cache mode does the tree have?  (observed through history_demo)
+    mode = "object" if history_demo() is None else "name"
+    pairs = hist_pairs()
+    for a, b in pairs:
+        lines.append("C19k hist %s %s @@H %s" % (mode, encode_card(lambda_card(a), {}), encode_card(lambda_card(b), {})))
+    model = ctx.model.query(lines)
+    n_bad = 0
+    kinds = {}
+    nontriv = set()
+    for j, ((i, cfg, share), line) in enumerate(zip(cc, model)):
+        m = K.parse_model(line)
+        o = cons_obs(ctx, j, cfg, share)
+        kinds[o.get("raise", "ok")] = kinds.get(o.get("raise", "ok"), 0) + 1
+        if m.get("raise") == "unsupported":
+            res.notes.append("constraint case %d outside the model's scope (overlapping tie groups)" % j)
+            continue
+        d = K.diff(m, o)
+        if "raise" not in o:
+            nontriv.add(json.dumps([o["train"], o["bound"], o["same"], sorted(o["gauss"])], sort_keys=True, default=str))
+        if d is not None:
+            n_bad += 1
+            if n_bad <= 3:
+                res.broke("correspondence ConfigC.constraints vs ConfigLoader.get_amplitude (trainable_vars / bound_dic / same_list / gauss_constr_dic / assigned values)",
+                          {"case": i, "difference": d[:600], "config": cfg, "share": share})
+        if j < 1:
+            res.samples.append({"op": lines[j][:300], "impl_trainable": o.get("train", o.get("raise")), "model": line[:300]})
+    n_hist_bad = 0
+    for (a, b), line in zip(pairs, model[len(cc):]):
+        got, own = line.split(" # ")
+        m_obs = ["own" if x == y else "stale" for x, y in zip(got.split("|"), own.split("|"))]
+        i_obs = hist_impl(a, b)
+        if m_obs != i_obs:
+            n_hist_bad += 1
+            res.broke("correspondence ConfigC.loadObs (cache mode %s) vs two loads in one process" % mode, {"first": a, "second": b, "model": m_obs, "impl": i_obs})
+    reordered = order_demo(ctx, res)
+    res.coverage["export_order_card_reordered_on_implementation"] = reordered
+    res.coverage["constraints"] = {"cards": len(cc), "outcome_kinds": kinds, "distinct_nontrivial": len(nontriv), "disagreements": n_bad,
+                                   "history_pairs": len(pairs), "history_cache_mode_observed": mode, "history_disagreements": n_hist_bad}
+    res.coverage["evaluations"] = res.coverage.get("evaluations", 0) + len(cc)
+
+
+def search_cons(ctx, res):
+    """property statements about the constraint sets on the implementation (no Lean model involved)"""
+    import sys
+    me = sys.modules[__name__]
+    cc = cons_cases(ctx)
+    cs = cases(ctx)
+    rnd = random.Random(104729 * ctx.seed + 11)
+    stat = {"repeat_loads": 0, "respelled": 0, "reference_checks": 0, "existence_checks": 0, "fcn_gauss": 0}
+    n_fcn = 0
+    for j, (i, cfg, share) in enumerate(cc):
+        base = obs_of(ctx, i, cs[i][0], cs[i][1])[0]
+        o = cons_obs(ctx, j, cfg, share)
+
+        def fail(key, what, extra=None):
+            res.fail(key, what, dict({"config": cfg, "share": share, "check": key}, **(extra or {})))
+        known = None
+        # determinism: a second load gives the same sets (values the loader draws at random excluded)
+        if j % 2 == 0 or not ctx.quick or ctx.suspect:
+            o2 = K.observe(cfg, share)
+            stat["repeat_loads"] += 1
+            if "raise" not in o and "raise" not in o2:
+                known = {k for k in o["vals"] if K.close(o["vals"][k], o2["vals"][k])}
+            if K.public(o2, known) != K.public(o, known):
+                a, b = K.public(o, known), K.public(o2, known)
+                fail("constraints:repeat", "second load of the same card gives other constraint sets: %s" % [f for f in a if a.get(f) != b.get(f)])
+        # documented spellings / dict key order
+        if j % 2 == 1 or not ctx.quick or ctx.suspect:
+            vcfg = K.respelled(rnd, cfg, share)
+            ov = K.observe(vcfg, share)
+            stat["respelled"] += 1
+            if "raise" not in o and "raise" not in ov:
+                known = {k for k in o["vals"] if K.close(o["vals"][k], ov["vals"][k])} | set((cfg.get("constrains") or {}).get("fix_var") or {})
+            a, b = K.public(o, known), K.public(ov, known)
+            if a != b:
+                fail("constraints:alias-key-order", "another spelling of the constraint keys (m_/mass_, g_/width_, m0_/mass_, float forms) or another key order of fix_var/var_range/gauss_constr changes %s" % [f for f in a if a.get(f) != b.get(f)], {"variant": vcfg})
+        w = K.reference_oracle(cfg, base, o)
+        stat["reference_checks"] += 1
+        if w:
+            fail("constraints:reference-coupling", w)
+        w = K.bounds_oracle(me, cfg, share, base, o)
+        if w:
+            fail("constraints:particle-bounds", w)
+        w = K.existence_oracle(cfg, base, o)
+        stat["existence_checks"] += 1
+        if w:
+            fail("constraints:unknown-name", w)
+        if "raise" not in o and o["gauss"] and n_fcn < (3 if ctx.quick else 20):
+            n_fcn += 1
+            of = K.observe(cfg, share, with_fcn=True)
+            stat["fcn_gauss"] += 1
+            if "raise" in of or of.get("fcn_gauss") != of.get("gauss") or sorted(of["gauss"]) != sorted(o["gauss"]):
+                fail("constraints:fcn-gauss", "get_fcn().gauss_constr = %s, loader gauss_constr_dic = %s" % (of.get("fcn_gauss", of.get("raise")), o["gauss"]))
+    stat["unknown_names"] = K.unknown_name_demo(me)
+    res.coverage["search_constraints"] = stat
+    acc = [k for k, v in stat["unknown_names"].items() if v == "accepted"]
+    if acc:
+        res.notes.append("names that do not exist are accepted without any check in the sections %s (fix_var / free_var raise KeyError); modelled as it is (Props/C19e `unchecked_sections_accept_unknown_names`), reported here, not counted as a failure" % acc)
+
+
+def replay_cons(key, cfg, share, variant):
+    """re-evaluate one constraint oracle on the stored (already constrained) card"""
+    import sys
+    me = sys.modules[__name__]
+    plain = copy.deepcopy(cfg)
+    plain.pop("constrains", None)
+    for v in plain["particle"].values():
+        if isinstance(v, dict):
+            for k in ("float", "gauss_constr", "mass_constr"):
+                v.pop(k, None)
+    base = observe(plain, copy.deepcopy(share))
+    o = K.observe(cfg, share)
+    what = None
+    if "raise" in base:
+        print("REPLAY: the card without its constraints does not load on this tree: %s" % base)
+        return 1
+    if key == "constraints:repeat":
+        o2 = K.observe(cfg, share)
+        known = None if ("raise" in o or "raise" in o2) else {k for k in o["vals"] if K.close(o["vals"][k], o2["vals"][k])}
+        what = None if K.public(o, known) == K.public(o2, known) else "two loads differ"
+    elif key == "constraints:alias-key-order" and variant is not None:
+        ov = K.observe(variant, share)
+        known = None if ("raise" in o or "raise" in ov) else ({k for k in o["vals"] if K.close(o["vals"][k], ov["vals"][k])} | set((cfg.get("constrains") or {}).get("fix_var") or {}))
+        a, b = K.public(o, known), K.public(ov, known)
+        what = None if a == b else "respelled card differs in %s" % [f for f in a if a.get(f) != b.get(f)]
+    elif key == "constraints:reference-coupling":
+        what = K.reference_oracle(cfg, base, o)
+    elif key == "constraints:particle-bounds":
+        what = K.bounds_oracle(me, cfg, share, base, o)
+    elif key == "constraints:unknown-name":
+        what = K.existence_oracle(cfg, base, o)
+    elif key == "constraints:fcn-gauss":
+        of = K.observe(cfg, share, with_fcn=True)
+        what = None if ("raise" not in of and of.get("fcn_gauss") == of.get("gauss")) else "get_fcn().gauss_constr = %s, gauss_constr_dic = %s" % (of.get("fcn_gauss", of.get("raise")), of.get("gauss"))
+    if what:
+        print("still failing:", what[:500])
+    print("REPLAY: property C19 key %s %s" % (key, "still violated" if what else "not reproduced on this tree"))
+    return 1 if what else 0
+
+
 def replay(ctx, payload):
     import numpy as np
     r = payload.get("replay") or {}
@@ -1021,6 +1254,8 @@ def replay(ctx, payload):
         print("REPLAY history_demo:", d["what"] if d else "not reproduced on this tree")
         return 1 if d else 0
     cfg, share = r["config"], r.get("share", {})
+    if str(key).startswith("constraints:"):
+        return replay_cons(key, cfg, share, r.get("variant"))
     # re-run the whole per-card statement on the stored card
     ctx._c19_cases = [(cfg, share)]
     ctx._c19_obs = {}
@@ -1084,7 +1319,7 @@ if __name__ == "__main__":
     raise SystemExit(0)
 
 MANIFEST = {
-    "text": "Lean model of the decay-card loader (decay_item, particle_item with $include, rename_params, get_decay_struct with chain_decay/cross_combine, the ls cut through C13's lsList, chain and parameter naming) with theorems for every card of the grammar: produced chains are trees from $top through declared decays whose leaves are exactly $finals, the cut keeps a candidate iff every decay has an allowed coupling (tied to the physical rule by C13.ls_mem_iff), alias / include / key-order equivalences. The model is compared on every run with ConfigLoader(dict) over a seeded grammar of cards (ordered chains, (l,s) lists, parameter names); the implementation itself is checked for repetition independence (three loads), documented equivalences, export->load, an independent enumeration of the allowed chains and history independence of the loaded model.",
-    "note": "Proved about the model; model tied to the code by differential comparison on generated cards (60 quick / 600 thorough). Validated only: trainable/fixed/bound sets, export->load, history independence. Excluded: m_min/m_max without mass (random by design), 3-body decays, repeated names in a chain.",
-    "technique": "Lean 4 proof (induction over the expansion, C13 selection-rule lemmas) + grammar-based differential testing against ConfigLoader + model-independent oracles",
+    "text": "Lean model of the decay-card loader (decay_item, particle_item with $include, rename_params, get_decay_struct with chain_decay/cross_combine, the ls cut through C13's lsList, chain and parameter naming, DecayGroup.as_config, and ConfigLoader.add_constraints: add_decay / add_particle (set_prefix_constrains, float, gauss_constr, equal) / fix_var / free_var / var_range / var_equal / gauss_constr on the VarsManager operations they use) with theorems for every card: produced chains are trees from $top through declared decays whose leaves are exactly $finals; the cut keeps a candidate iff every decay has an allowed coupling (C13.ls_mem_iff); alias / include / key-order equivalences; export -> import (export_import: every card that loads without a user ls_list on a produced chain loads again from its export with the same chain set, J/P/C, width presence, p_break/c_break and (l,s) lists; the chain ORDER is refuted by a witness); constraint sets (fix_var / free_var accept only existing names or raise KeyError, var_range / var_equal / gauss_constr do not check names (witness), exactly one reference coupling per decay and exactly the fix_chain_idx chain coupling fixed, fix_var key order irrelevant for the ordered trainable list, free_var order visible (witness)); history independence with the shared memo as explicit state (load_independent_of_history for the memo on the decay object, refuted for the memo keyed by names). The models are compared on every run with ConfigLoader(dict) over a seeded grammar of cards (ordered chains, (l,s) lists, parameter names, export->load, ordered trainable_vars, bound_dic, same_list, gauss_constr_dic, assigned values); the implementation itself is checked for repetition independence (three loads + fresh interpreter), documented equivalences incl. constraint-key spellings and dict key order, export->load, an independent enumeration of the allowed chains, the reference-coupling convention, rejection of unknown fix_var/free_var names, get_fcn().gauss_constr, history independence of the CG factors.",
+    "note": "Proved about the models; models tied to the code by differential comparison on generated cards (60 + 50 constrained quick / 600 + 500 thorough). Validated only (not proved): equality of the constraint-key aliases m_/mass_, g_/width_, m0/mass for every key (kernel-evaluated instances + respelled variants on the implementation), float spellings, key order of var_range / gauss_constr, get_fcn().gauss_constr, other shared state than the CG memo (get_chains_map cache, creators lists), fresh-process equality. Excluded: m_min/m_max or gauss_constr{m} without mass (random by design), 3-body decays, repeated names in a chain, overlapping tie groups (set_same merge), coef_head, decay_d, pre_trans/from_trans, user ls_list for export->import.",
+    "technique": "Lean 4 proof (induction over the expansion, pigeonhole on decay paths for the recursion budget, C13 selection-rule lemmas, fold invariants of the VarsManager operations, cache-consistency invariant) + grammar-based differential testing against ConfigLoader + model-independent oracles",
 }
